@@ -211,6 +211,24 @@ Theorem C17_mmap_whole_dimension : forall f rh o w vals, laid_out f rh ->
 Proof. exact mmap_set_dim_local. Qed.
 Print Assumptions C17_mmap_whole_dimension.
 
+(* THE POINT FORMAT - the dimensions of the records, their names, types and sizes - is a function of the format id, the record
+   size and the first Extra Bytes record (LASF_Spec / 4) among the VLRs (`format_of`, Model/Access.v): loading EVLRs, sooner or
+   later, changes nothing of it - a record of that type stored as an EVLR (LAS 1.4 allows it) is an EVLR like any other ... *)
+Theorem C17_point_format_ignores_evlrs : forall rh ev, format_of (with_evlrs rh ev) = format_of rh.
+Proof. exact format_ignores_evlrs. Qed.
+Print Assumptions C17_point_format_ignores_evlrs.
+
+(* ... so that at every moment and through every access path the header shows the point format that the file's own header and
+   VLRs give: right after laspy.open (EVLRs loaded, or left for read() because that was asked or because the source cannot
+   seek), after the reader was consumed without read(), when everything is read, and through the memory map *)
+Theorem C17_point_format_independent : forall f rh, laid_out f rh ->
+  (forall c e rh1, fst (open_via c e f) = Ok rh1 -> format_of rh1 = format_of rh)
+  /\ (forall c e steps lf, fst (consume_via c e steps f) = Ok lf -> format_of (lf_h lf) = format_of rh)
+  /\ (forall c e steps lf, (can_seek c = true \/ evlrs_after_points rh) -> fst (read_via c e steps f) = Ok lf -> format_of (lf_h lf) = format_of rh)
+  /\ (forall lf, (h_minor rh >= 4 -> h_nev rh > 0 -> h_evstart rh <= len f) -> read_mmap f = Ok lf -> format_of (lf_h lf) = format_of rh).
+Proof. exact format_path_independent. Qed.
+Print Assumptions C17_point_format_independent.
+
 (* the hypotheses are those of every file the writer model produces (C01/C03: file_of), for every header, VLRs, records, EVLRs *)
 Theorem C17_written_files_are_laid_out : forall ap h vl fmt recs evl f h',
   file_of ap h vl fmt recs evl = Ok f -> final_hdr ap h vl fmt recs evl = Ok h' ->
@@ -261,12 +279,16 @@ Print Assumptions C17_short_counts_partial.
    two reads in _prefetch_header_data, the signature, six reads per EVLR, the three-way source normalisation of open_las,
    the default of read_evlrs, and the statement shapes of LasHeader.read_evlrs / read_from (the capability asked through
    getattr with a default), LasReader.read / read_points (the source reached through read_n_points only), the point
-   readers, LasMMAP.__init__ and PackedPointRecord.__setitem__ (in place; the array replaced only when it has to grow) *)
+   readers, LasMMAP.__init__ and PackedPointRecord.__setitem__ (in place; the array replaced only when it has to grow); and where
+   the point format is decided: LasHeader.read_from stores it, built from the format id, the point size and the Extra Bytes record
+   of the VLRs, before `if read_evlrs:`, which is followed by `return header` only, and the code that loads EVLRs afterwards
+   (LasHeader.read_evlrs, LasReader.read / read_evlrs, LasMMAP.__init__) stores nothing but the EVLR list and calls nothing new *)
 Theorem C17_source_shapes :
   prefetch_reads = 2 /\ file_signature = LASF /\ vlr_reads_per_record = len (evlr_head ++ evlr_tail) + 1
   /\ map fst source_normalisation = ["path"; "bytes"; "other"]%string /\ open_read_evlrs_default = true
   /\ gen_hdr_read_evlrs_shape = true /\ gen_read_from_shape = true /\ gen_reader_read_shape = true
-  /\ gen_read_points_shape = true /\ gen_point_readers_shape = true /\ gen_mmap_shape = true /\ gen_record_assign_shape = true.
+  /\ gen_read_points_shape = true /\ gen_point_readers_shape = true /\ gen_mmap_shape = true /\ gen_record_assign_shape = true
+  /\ gen_format_from_vlrs_only = true.
 Proof. repeat split. Qed.
 Print Assumptions C17_source_shapes.
 
@@ -276,7 +298,8 @@ Print Assumptions C17_source_shapes.
    seekable source is asked; what laspy.open alone shows through a non-seekable and a seekable source; a reader that is
    only iterated (read_points(1) then a chunk iterator) has handed out both records and still shows no EVLRs; the file cut
    after its first record reads one record through a bare source; a whole-dimension assignment through the map; the same
-   file with a gap of five bytes before its EVLR through a source that cannot seek; a short-count call and the ask-again loop *)
+   file with a gap of five bytes before its EVLR through a source that cannot seek; the same file whose EVLR is an Extra Bytes
+   record; a short-count call and the ask-again loop *)
 Example C17_nonvacuous :
   laid_out sample_file sample_header /\ evlrs_adjacent sample_header
   /\ fst (read_via (mkCaps false false true) false [SChunks 1] sample_file) = read_file sample_file
@@ -304,6 +327,14 @@ Example C17_nonvacuous :
       read_via (mkCaps false false true) false [] g
       = (read_file g, [ORead 227; ORead 148; ORead 60; OSeekable; ORead 5; ORead 2; ORead 16; ORead 2; ORead 8; ORead 32; ORead 3])
       /\ (match read_file g with Ok lf => option_map (@length vlr) (rh_evlrs (lf_h lf)) = Some 1%nat | Err _ => False end))
+  /\ (let g := firstn 435 sample_file ++ [0; 0] ++ LASF_SPEC ++ repeat 0 7%nat ++ [4; 0] ++ [192; 0; 0; 0; 0; 0; 0; 0] ++ repeat 0 32%nat ++ repeat 0 192%nat in
+      (* the same file whose EVLR is an Extra Bytes record: a source that can seek shows it among the EVLRs when the file is opened, a
+         bare source shows no EVLRs yet; both show the point format of the header and the VLRs (format 6, 30 bytes, no descriptor) *)
+      match fst (open_via (mkCaps true true true) true g), fst (open_via (mkCaps false false false) true g) with
+      | Ok a, Ok b => option_map (map is_extra_bytes_record) (rh_evlrs a) = Some [true] /\ rh_evlrs b = None
+                      /\ format_of a = (6, 30, None) /\ format_of b = format_of a
+      | _, _ => False
+      end)
   /\ len (fst (s_readinto_short 7 60 (mkSt sample_file 375 []))) = 7
   /\ read_exact true [7; 1; 40] 60 (mkSt sample_file 375 [])
      = (fst (s_readinto 60 (mkSt sample_file 375 [])), mkSt sample_file 435 [OReadInto 60; OReadInto 53; OReadInto 52; OReadInto 12]).
